@@ -681,29 +681,85 @@ func checkLexPartition(p *Prog, l *Ledger) {
 	m.InlinePkg = "lexer"
 	m.Explore(fn, []AV{Sym("s"), Sym("tokenType"), Sym("literal")}, nil)
 	ws, _ := m.G.Words(10)
-	want := "call(token.NewToken, tokenType, conv:string(s.source[s.start:s.current]), literal, s.line) ; fieldstore(s.tokens, append) ; return()"
+	want := "call(token.CTOR, tokenType, conv:string(s.source[s.start:s.current]), literal, s.line) ; fieldstore(s.tokens, append) ; return()"
 	got := ""
 	if len(ws) == 1 {
 		got = normName(wordString(ws[0]))
 		got = regexp.MustCompile(`append\(s\.tokens, [^)]*\) ; `).ReplaceAllString(got, "")
+		for name := range tokenConstructors(p) {
+			got = strings.Replace(got, "call("+name+",", "call(token.CTOR,", 1)
+		}
 	}
 	if got == want {
 		l.Discharge(rule, "Scanner.AddToken", p.Pos(fn.Pos()), "appends Token{type, source[start:current], literal, line}", true)
 	} else {
 		l.Violate(rule, "Scanner.AddToken", p.Pos(fn.Pos()), "AddToken does not append Token{type, source[start:current], literal, line}: "+got)
 	}
-	nt := p.Func("token.NewToken")
-	if nt != nil {
-		mm := NewInterpModel(p, "NewToken")
-		mm.Explore(nt, []AV{Sym("tokenType"), Sym("lexeme"), Sym("literal"), Sym("line")}, nil)
-		rets := mm.G.Events("return")
-		ok := len(rets) == 1 && rets[0].KV["r0.Type"] == "tokenType" && rets[0].KV["r0.Lexeme"] == "lexeme" && rets[0].KV["r0.Literal"] == "literal" && rets[0].KV["r0.Line"] == "line"
-		if ok {
-			l.Discharge(rule, "token.NewToken", p.Pos(nt.Pos()), "fields set from the arguments in order", true)
+	// every constructor of package token (NewToken, or a value-returning sibling) sets the four fields from its four
+	// arguments in order
+	var ctors []string
+	for name := range tokenConstructors(p) {
+		ctors = append(ctors, name)
+	}
+	sort.Strings(ctors)
+	for _, name := range ctors {
+		nt := tokenConstructors(p)[name]
+		if tokenCtorFaithful(p, nt) {
+			l.Discharge(rule, name, p.Pos(nt.Pos()), "fields set from the arguments in order", true)
 		} else {
-			l.Violate(rule, "token.NewToken", p.Pos(nt.Pos()), "NewToken does not store its arguments in the corresponding fields")
+			l.Violate(rule, name, p.Pos(nt.Pos()), fnName(nt)+" does not store its arguments in the corresponding fields")
 		}
 	}
+}
+
+var tokenCtorCache = map[*Prog]map[string]*ssa.Function{}
+
+// tokenConstructors: the functions of package token that take (type, lexeme, literal, line) and return a Token or a
+// pointer to one.
+func tokenConstructors(p *Prog) map[string]*ssa.Function {
+	if m, ok := tokenCtorCache[p]; ok {
+		return m
+	}
+	out := map[string]*ssa.Function{}
+	tokenCtorCache[p] = out
+	for _, fn := range p.ModuleFuncs() {
+		if fnPkgName(fn) != "token" || fn.Signature.Recv() != nil || fn.Signature.Params().Len() != 4 || fn.Signature.Results().Len() != 1 || fn.Blocks == nil {
+			continue
+		}
+		if typeStr(derefT(fn.Signature.Results().At(0).Type())) != "token.Token" {
+			continue
+		}
+		ps := fn.Signature.Params()
+		b1, ok1 := ps.At(1).Type().Underlying().(*types.Basic)
+		b3, ok3 := ps.At(3).Type().Underlying().(*types.Basic)
+		if typeStr(ps.At(0).Type()) == "token.TokenType" && ok1 && b1.Kind() == types.String && isIfaceT(ps.At(2).Type()) && ok3 && b3.Kind() == types.Int {
+			out[p.FuncKey(fn)] = fn
+		}
+	}
+	return out
+}
+
+// tokenCtorFaithful: on its only path the constructor returns a token whose fields are its arguments, in order —
+// directly, or through another faithful constructor.
+func tokenCtorFaithful(p *Prog, nt *ssa.Function) bool {
+	mm := NewInterpModel(p, fnName(nt))
+	mm.KeepAsEvent = func(c *ssa.Function) bool { return false }
+	mm.Explore(nt, []AV{Sym("tokenType"), Sym("lexeme"), Sym("literal"), Sym("line")}, nil)
+	rets := mm.G.Events("return")
+	if len(rets) != 1 {
+		return false
+	}
+	kv := rets[0].KV
+	return kv["r0.Type"] == "tokenType" && kv["r0.Lexeme"] == "lexeme" && kv["r0.Literal"] == "literal" && kv["r0.Line"] == "line"
+}
+
+func isTokenCtorName(p *Prog, name string) bool {
+	for k := range tokenConstructors(p) {
+		if name == k || strings.HasSuffix(name, "."+fnName(tokenConstructors(p)[k])) && strings.HasPrefix(name, "token.") {
+			return true
+		}
+	}
+	return false
 }
 
 // checkScanTokensLoop: start=current before each scanToken; one EOF after the loop on the only return.
@@ -736,7 +792,7 @@ func checkScanTokensLoop(p *Prog, l *Ledger) {
 					return "!scanToken is called without the input having been found non-empty in this iteration"
 				}
 				f[0], f[1] = "F", "?"
-			case strings.HasSuffix(ev.Args[0], "NewToken"):
+			case isTokenCtorName(p, ev.Args[0]):
 				if f[1] != "atend" {
 					return "!the end-of-input token is created before the input is exhausted"
 				}
